@@ -28,6 +28,12 @@ def main():
         if r.returncode != 0:
             rows.append((i, props[0], "PATCH DOES NOT APPLY", r.stderr.strip()[:100])); continue
         res = {}
+        # evidence files must describe runs against the unchanged tree: keep them aside
+        saved = {}
+        for p in props:
+            ef = os.path.join(V, "evidence", p + ".json")
+            if os.path.exists(ef):
+                saved[ef] = open(ef).read()
         try:
             for p in props:
                 t0 = time.time()
@@ -47,6 +53,8 @@ def main():
         finally:
             sh(["git", "-C", REPO, "checkout", "--", "."])
             sh(["git", "-C", REPO, "clean", "-fdq"])
+            for ef, txt in saved.items():
+                open(ef, "w").write(txt)
         json.dump({"id": i, "tier": tier, "results": res, "at": time.strftime("%Y-%m-%dT%H:%M:%S")}, open(os.path.join(d, "result.json"), "w"), indent=1)
         for p, v in res.items():
             how = "MISSED" if v["exit"] == 0 else ("caught: " + (", ".join(v.get("signatures") or []) or "no-failing-input-found: " + ", ".join(v.get("no_longer_checks") or [])))
